@@ -5,6 +5,8 @@ from engine.report import Report
 from props import seminaive as S
 
 MUTANTS = [
+    ('limit-parsed-by-stoi', 'src/ast/analysis/IOType.cpp', 'static_cast<std::size_t>(RamSignedFromString(directive.getParameter("n"), nullptr, 0))', 'stoi(directive.getParameter("n"))', 'R2'),
+    ('limit-parsed-in-base-10-only', 'src/ast/analysis/IOType.cpp', 'RamSignedFromString(directive.getParameter("n"), nullptr, 0)', 'RamSignedFromString(directive.getParameter("n"))', 'R2'),
     ('limit-tests-new', S.UT, '                    mk<ram::RelationSize>(getConcreteRelationName(rel->getQualifiedName())),',
      '                    mk<ram::RelationSize>(getNewRelationName(rel->getQualifiedName())),', 'R1'),
     ('limit-le', S.UT, 'Own<ram::Condition> limit = mk<ram::Constraint>(BinaryConstraintOp::GE,', 'Own<ram::Condition> limit = mk<ram::Constraint>(BinaryConstraintOp::LE,', 'R1'),
@@ -15,10 +17,38 @@ MUTANTS = [
 ]
 
 
+def rule_limit_parsing(rep):
+    """R2: the limit is a NUMBER token (decimal, 0x.., 0b..).  IOTypeAnalysis must read it with the parser used for number constants
+    (RamSignedFromString / RamUnsignedFromString): std::stoi stops at the `x` of 0x2F and yields 0 (recursion cut after one round), and a
+    base-guessing std::stoul reads 0100 as 64."""
+    from engine import tables
+    from engine.facts import walk, is_call, kids, strip, expr_key, call_args
+    io, = facts.extract([('src/ast/analysis/IOType.cpp', r'analysis/IOType\.(cpp|h)$', r'IOTypeAnalysis::')])
+    rep.add_units([io])
+    run = [f for f in io.functions if f.is_lambda and 'IOTypeAnalysis::run' in f.qname]
+    if not run:
+        rep.analysis_broken('IOTypeAnalysis::run visitor not found')
+        return
+    f = run[0]
+    asg = [m for m in f.walk() if m['k'] in ('BinaryOperator', 'CXXOperatorCallExpr') and m.get('op') == '=' and 'limitSize' in expr_key((kids(m) if m['k'] == 'BinaryOperator' else call_args(m))[0])]
+    if len(asg) != 1:
+        rep.analysis_broken('IOTypeAnalysis::run: assignment of the size limit not found (%d)' % len(asg))
+        return
+    rhs = (kids(asg[0]) if asg[0]['k'] == 'BinaryOperator' else call_args(asg[0]))[1]
+    calls = [m.get('cn') for m in walk(rhs) if is_call(m)]
+    parsers = [m for m in walk(rhs) if is_call(m) and m.get('cn') in ('RamSignedFromString', 'RamUnsignedFromString')]
+    # base 0 = "detect the 0x / 0b prefix, else decimal": the mode in which number constants are read (a leading 0 is NOT octal there)
+    base0 = any(len(call_args(m)) >= 3 and str(strip(call_args(m)[2], casts=True).get('cv', strip(call_args(m)[2], casts=True).get('val'))) == '0' for m in parsers)
+    ok = bool(parsers) and base0 and not any(c in ('stoi', 'stol', 'stoul', 'stoull', 'atoi', 'strtol') for c in calls)
+    rep.ob('R2-limit-parsed-like-number-constants', 'IOTypeAnalysis::run/limitsize', ok, f.loc(asg[0]),
+           '' if ok else 'the limit is parsed by %s: it does not read the NUMBER token the way number constants are read (0x2F -> 0 with stoi; 0100 -> 64 with base 0)' % calls)
+
+
 def analyse(rep):
     sh = S.Shapes(rep)
     S.rule_exit(rep, sh, size_limit=True)
     S.rule_loop_order(rep, sh)
+    rule_limit_parsing(rep)
 
 
 def run(tier='quick'):
